@@ -3,7 +3,7 @@ oracle (on the implementation): parse x -> ts; s = print d t; parse s == [t]; pr
 tie: PARSE and PRINT correspondence of the extracted parser / printer models on the same inputs."""
 import json
 
-from .. import core, sqlgen, stmt
+from .. import core, sqlgen, stmt, exprgen
 
 PROP = "C01"
 
@@ -66,11 +66,77 @@ def roundtrip_cases(run, cases, name):
     return dis, fails, known
 
 
+EXPR_POSITIONS = ["SELECT {} FROM t", "SELECT 1 FROM t WHERE {}", "SELECT f({}) FROM t", "UPDATE t SET a = {}"]
+
+
+def expression_cases(run, tier_q):
+    trees = exprgen.enumerate_trees(1) + exprgen.enumerate_trees(2)
+    t3 = exprgen.enumerate_trees(3)
+    trees += t3[:: 41 if tier_q else 3]
+    cases = []
+    for hive, dialects in ((False, ["DEFAULT", "MYSQL"] if tier_q else ["DEFAULT", "MYSQL", "DB2", "ORACLE", "POSTGRE_SQL", "SQL_SERVER"]), (True, ["HIVE"])):
+        em = exprgen.emit_all([(t, hive, [run.rng.randint(0, 11) for _ in range(12)] if i % 3 else []) for i, t in enumerate(trees)])
+        for i, (text, _) in enumerate(em):
+            if text is None:
+                continue
+            d = dialects[i % len(dialects)]
+            cases.append((d, EXPR_POSITIONS[i % len(EXPR_POSITIONS)].format(text)))
+    # random richer expressions (unary, keyword predicates, IN, BETWEEN, functions)
+    rc = []
+    for _ in range(300 if tier_q else 4000):
+        rc.append((exprgen.gen(run.rng, run.rng.choice([1, 2, 2, 3])), False, [run.rng.randint(0, 11) for _ in range(30)]))
+    for (text, _) in exprgen.emit_all(rc):
+        if text is not None:
+            cases.append((run.rng.choice(["DEFAULT", "MYSQL", "SQL_SERVER"]), run.rng.choice(EXPR_POSITIONS).format(text)))
+    return cases
+
+
+CONTAINERS = ["CAST({} AS CHAR)", "f({})", "f(1, {})", "IF({}, 1, 2)", "IF(x, {}, 2)", "CASE WHEN {} THEN 1 ELSE 2 END", "CASE WHEN x THEN {} END",
+              "CASE {} WHEN 1 THEN 2 END", "CASE x WHEN 1 THEN 2 ELSE {} END", "sum({})", "count(DISTINCT {})", "({})", "- {}", "{} + 1", "1 * {}",
+              "{} IS NULL", "{} IN (1, 2)", "x IN ({}, 2)", "x BETWEEN {} AND 9", "x BETWEEN 1 AND {}", "{} LIKE 'a'", "NOT {}", "{} AND y", "y OR {}",
+              "{} = 1", "1 < {}", "EXTRACT(year FROM {})", "sum({}) OVER (PARTITION BY {} ORDER BY {})", "x IN (SELECT {} FROM u)", "(SELECT {} FROM u)",
+              "EXISTS (SELECT 1 FROM u WHERE {})", "coalesce({}, {})", "substring({}, 1, 2)"]
+LEAVES = {"*": ["a", "t.a", "1", "'s'", "a + b", "a * (b % c)", "a - (b - c)", "(a + b) * c", "a | b & c", "(a | b) & c", "- - a", "-(-a)", "~a", "a % b",
+                "NOT a", "a AND b", "(a OR b)", "a = b", "a IS NOT NULL", "f(a)", "CAST(a AS INT)", "CASE WHEN a THEN b END", "CURRENT_DATE", "a DIV b", "a MOD b",
+                "a << 1", "a ^ b"],
+          "HIVE": ["a[0]", "m['k']", "f(a)[1]", "! a", "a == b", "a[0][1]"],
+          "DB2": ["CURRENT DATE", "CURRENT TIMESTAMP"]}
+CLAUSES = ["SELECT {} FROM t", "SELECT 1 FROM t WHERE {}", "SELECT 1 FROM t GROUP BY a HAVING {}", "SELECT 1 FROM t JOIN u ON {}", "SELECT 1 FROM t ORDER BY {}",
+           "UPDATE t SET a = {}", "DELETE FROM t WHERE {}", "INSERT INTO t VALUES ({})", "SELECT 1 FROM t GROUP BY {}"]
+
+
+def nesting_cases(run, tier_q):
+    cases = []
+    dialects = stmt.DIALECTS[:4] if tier_q else stmt.DIALECTS
+    for d in dialects:
+        leaves = LEAVES["*"] + LEAVES.get(d, [])
+        for ci, c in enumerate(CONTAINERS):
+            for li, leaf in enumerate(leaves):
+                if tier_q and (ci + li) % 3 and leaf in LEAVES["*"]:
+                    continue
+                cl = CLAUSES[(ci * 7 + li) % len(CLAUSES)] if not tier_q or (ci + li) % 2 else CLAUSES[0]
+                cases.append((d, cl.format(c.replace("{}", leaf))))
+        if not tier_q:
+            for c1 in CONTAINERS[::2]:
+                for c2 in CONTAINERS[1::3]:
+                    leaf = run.rng.choice(leaves)
+                    cases.append((d, "SELECT " + c1.replace("{}", c2.replace("{}", leaf)) + " FROM t"))
+    return cases
+
+
 def run(run):
     proofs_ok = core.proof_stage(run, "Props/C01.v")
     tier_q = run.tier == "quick"
     cases = stmt.gen_cases(run, stmt.DIALECTS[:4] if tier_q else stmt.DIALECTS, 500 if tier_q else 6000)
     dis, fails, known = roundtrip_cases(run, cases, "round trip")
+    # directed streams: (1) every operator tree shape (= every explicit grouping) through the specification's emitter,
+    # (2) every container construct around every dialect-sensitive / grouping-sensitive leaf
+    d1, f1, k1 = roundtrip_cases(run, expression_cases(run, tier_q), "round trip: operator trees with explicit grouping")
+    d2, f2, k2 = roundtrip_cases(run, nesting_cases(run, tier_q), "round trip: container x leaf")
+    dis += d1 + d2
+    fails += f1 + f2
+    for k in known:
+        known[k] += k1.get(k, 0) + k2.get(k, 0)
     run.cov["rule"] = ("generated statements of every kind + the shipped corpora, per dialect: parse, print in the same dialect, re-parse, compare trees "
                        "(canonical reflective dump), print again, compare texts; all on the implementation, and the extracted parser / printer models are "
                        "run on the same requests (tie). distinct_nontrivial = distinct printed statements that were re-parsed.")
